@@ -48,11 +48,12 @@ type oracle struct {
 	lostBy   map[int]string // durable record destroyed by: tombstone-unreadable | state-unreadable (open error or undecodable)
 	stateBad bool           // state file was replaced by garbage and not yet rewritten
 	flagged  map[kid]string // keys already reported by the hold-down clause, with the reason
+	closed   map[int]bool   // revocation accepted by the running process, no record could be written
 }
 
 func newOracle(cfg []kref) *oracle {
 	o := &oracle{cfg: map[kid]bool{}, streak: map[kid]int64{}, broken: map[kid]string{}, earned: map[kid]bool{},
-		durable: map[int]bool{}, lostBy: map[int]string{}, flagged: map[kid]string{}}
+		durable: map[int]bool{}, lostBy: map[int]string{}, flagged: map[kid]string{}, closed: map[int]bool{}}
 	for _, k := range cfg {
 		o.cfg[k.kid()] = true
 	}
@@ -339,6 +340,9 @@ func (o *oracle) after(s *sim, sp *runSpec, pre *preState, outcome string) (stri
 		}
 	}
 
+	if !pre.hadProc {
+		o.closed = map[int]bool{} // a new process cannot know what the previous one could not record
+	}
 	// ---- revocations accepted in this run (ground truth + the implementation's own counter)
 	var revokedNow []int
 	if accepted && (full || revOnly) && s.lastRevokedDelta > 0 {
@@ -358,9 +362,26 @@ func (o *oracle) after(s *sim, sp *runSpec, pre *preState, outcome string) (stri
 			delete(o.lostBy, m)
 		} else {
 			failClosedMandated = true
+			if completed {
+				o.closed[m] = true
+			}
 			if completed && len(liveAfter) > 0 {
 				flag(fail("autota/both-writes-failed/not-fail-closed", "revocation of %d has no durable record but live=%s", m, joinRefs(liveAfter)))
 			}
+		}
+	}
+
+	// ---- a revocation the running process accepted but could not record stays out of the
+	// live set for as long as that process lives (it knows; the disk does not)
+	for m := range o.closed {
+		if tombLanded || stateLanded {
+			if hasInt(revokedNow, m) || recordOf(stateAfter, tombAfter, m) {
+				delete(o.closed, m)
+				continue
+			}
+		}
+		if completed && hasMat(liveAfter, m) && !hasInt(revokedNow, m) {
+			flag(fail("autota/both-writes-failed/revoked-key-republished", "material %d live=%s", m, joinRefs(liveAfter)))
 		}
 	}
 
@@ -547,6 +568,9 @@ func (o *oracle) after(s *sim, sp *runSpec, pre *preState, outcome string) (stri
 
 	if stateLanded {
 		o.stateBad = false
+	}
+	if !completed {
+		o.closed = map[int]bool{}
 	}
 	return verdict, tags
 }
